@@ -33,7 +33,7 @@ ASSUMPTIONS = [
     'cast_strategy=schema: the reference parse of a cell is tableschema.Field.cast_value with the *emitted* field descriptor',
 ]
 BUDGET = {'quick': dict(examples=1600, shards=8, seconds=70),
-          'thorough': dict(examples=40000, shards=16, seconds=1200)}
+          'thorough': dict(examples=100000, shards=16, seconds=1200)}
 
 HEADERS = ['a', 'b', 'A', 'a (1)', 'a (2)', 'col', 'x y', 'é', 'a,b', 'q"t', 'B', 'a-1', 'n']
 CELLS_HARD = ['', 'x', '1', '-2', '1.5', '007', 'true', '2020-01-31', 'a,b', 'a;b', 'say "hi"', 'line\nbreak',
